@@ -59,7 +59,7 @@ pub fn mutated_self_field_of_target(target: &Expr) -> Option<String> {
 
 /// names assigned (`x = ..`, `x op= ..`; a mutated field `f` of `self` is the name `self.f`) and names declared by
 /// `let` inside
-struct AssignFinder { assigned: Vec<String>, declared: Vec<String>, inout_fns: Vec<(String, Vec<usize>)> }
+struct AssignFinder { assigned: Vec<String>, declared: Vec<String>, inout_fns: Vec<(String, Vec<usize>)>, mut_methods: Vec<(String, Vec<String>)> }
 impl AssignFinder {
     fn target(&mut self, left: &Expr) {
         let n = match path_ident(left) {
@@ -90,6 +90,12 @@ impl<'ast> Visit<'ast> for AssignFinder {
     fn visit_expr_method_call(&mut self, m: &'ast syn::ExprMethodCall) {
         if MUTATING_METHODS.contains(&m.method.to_string().as_str()) {
             if let Some(f) = self_field(&m.receiver) { let n = format!("self.{}", f); if !self.assigned.contains(&n) { self.assigned.push(n); } }
+        }
+        // `self.make(mv)`: a translated `&mut self` method of the same type
+        if path_ident(&m.receiver).as_deref() == Some("self") {
+            if let Some((_, fs)) = self.mut_methods.iter().find(|(n, _)| *n == m.method.to_string()).cloned() {
+                for f in fs { let n = format!("self.{}", f); if !self.assigned.contains(&n) { self.assigned.push(n); } }
+            }
         }
         syn::visit::visit_expr_method_call(self, m);
     }
@@ -863,7 +869,10 @@ impl<'w> FnTr<'w> {
             }
         }
         inout_fns.sort();
-        AssignFinder { assigned: vec![], declared: vec![], inout_fns }
+        let ns = self.target.container.ns().map(|s| s.to_string());
+        let mut mut_methods: Vec<(String, Vec<String>)> = self.world.fns.iter().filter(|((n, _), i)| *n == ns && !i.self_mutated.is_empty()).map(|((_, m), i)| (m.clone(), i.self_mutated.clone())).collect();
+        mut_methods.sort();
+        AssignFinder { assigned: vec![], declared: vec![], inout_fns, mut_methods }
     }
 
     /// outer (already declared) mutable variables assigned inside `e`, in declaration order
@@ -1049,6 +1058,25 @@ impl<'w> FnTr<'w> {
     fn tr_method_stmt(&mut self, e: &Expr, mc: &syn::ExprMethodCall, out: &mut Vec<String>) -> Res<()> {
         let method = mc.method.to_string();
         let args: Vec<&Expr> = mc.args.iter().collect();
+        // `self.make(mv);`: a translated `&mut self` method of the same type; the fields it modifies are rebound
+        if path_ident(&mc.receiver).as_deref() == Some("self") {
+            let ns = self.target.container.ns().map(|s| s.to_string());
+            if let Some(info) = self.world.fns.get(&(ns, method.clone())).cloned() {
+                if !info.self_mutated.is_empty() {
+                    if !info.inout.is_empty() { return Err(self.err(e, "method with both `&mut self` and `&mut` struct parameters")); }
+                    let mut names = vec![];
+                    if info.ret != RTy::Unit { names.push("_".to_string()); }
+                    for f in &info.self_mutated { let v = self.self_field_var(e, f)?; names.push(v.lean); }
+                    self.in_call_stmt = true;
+                    let x = self.call_translated_pub(e, &info, Some(&mc.receiver), &args);
+                    self.in_call_stmt = false;
+                    let x = x?;
+                    let m = x.m.clone().ok_or_else(|| self.err(e, "internal: call is not monadic"))?;
+                    out.push(format!("let {} ← {}", pat_tuple(&names), m));
+                    return Ok(());
+                }
+            }
+        }
         let recv = self.tr_expr(&mc.receiver, None)?;
         if matches!(recv.ty, RTy::HashMap(_, _) | RTy::VecDeque(_)) {
             // `self.map.remove(&k);` etc.: the returned value is dropped
